@@ -252,8 +252,8 @@ def gen_response_stream(rng, gz_table=(), max_body=200, p_mut=0.4):
         chunked_body(rng, w, body)
     else:
         w.add(body)
-    if rng.random() < 0.1:
-        w.add(b"trailing garbage")
+    if rng.random() < 0.1 and not (use_gz and framing == "close"):
+        w.add(b"trailing garbage")      # (after a close-delimited gzip member it would be part of the coded body)
     if rng.random() < p_mut:
         mutate(rng, w)
     return bytes(w.b), {"gz": use_gz}
